@@ -23,6 +23,11 @@ From V Require Export Base.Hex Crash.Storage Crash.Protocol Crash.ToyHash.
 (* which code the model is compared with: true = store.sync() fsyncs the hash tree after the tx log and
    before the commit entries are appended (the code since fix b260503); false = the code before it *)
 Definition repair_applied : bool := true.
+(* false = ahtree.ResetSize lowers the sizes in memory only (the code as it is); true = the proposed
+   repair fixes/C03-aht-durable-reset.diff (the tree's commit log is rewound and fsynced) *)
+Definition aht_durable_reset : bool := false.
+(* PreallocFiles is not part of the correspondence run (the cases are recorded without it) *)
+Definition code_cfg (thld maxact : N) : cfg := mkCfg thld maxact false 0 aht_durable_reset false repair_applied.
 
 (* what was observed after an operation *)
 Inductive obs :=
@@ -105,9 +110,9 @@ Definition image_by (p : pol) (s : st) : images :=
 
 Definition case_ok (c : case) : bool :=
   match c with
-  | CRun thld maxact nv items => run_items (init Hc (mkCfg thld maxact false 0 repair_applied) nv) items
+  | CRun thld maxact nv items => run_items (init Hc (code_cfg thld maxact) nv) items
   | CRec thld maxact nv ops p ok c reloaded =>
-      let cf := mkCfg thld maxact false 0 repair_applied in
+      let cf := code_cfg thld maxact in
       match run Hc (init Hc cf nv) ops with
       | Ok s =>
           match recover Hc cf (image_by p s) with
